@@ -54,6 +54,10 @@ type global struct {
 }
 
 type runtime struct {
+	// hostEval is set by Otto.Eval for the program it submits: that program runs
+	// in the current scope but is not ES5 eval code, so its declaration bindings
+	// are as permanent as through every other route (route independence).
+	hostEval     bool
 	global       global
 	globalObject *object
 	globalStash  *objectStash
@@ -1048,6 +1052,7 @@ func (rt *runtime) cmplRunOrEval(src, sm interface{}, eval bool) (Value, error) 
 		node = cmplParse(program)
 	}
 	err = catchPanic(func() {
+		rt.hostEval = eval
 		result = rt.cmplEvaluateNodeProgram(node, eval)
 	})
 	switch result.kind {
